@@ -40,6 +40,7 @@ def main(tier):
     chk.run("R-SLOTAGREE", B.slotagree, r, floor=20)
     chk.run("R-HEADERGUARD", B.headerguard, r, floor=1)
     chk.run("R-PACKFORWARD", WN.packforward, cx.cpp, floor=3)
+    chk.run("R-ALIASCTOR", B.aliasctor, r, floor=3)
     chk.run("R-INTRANGE", RG.intrange, r, parts=('backend',), floor=4)
     chk.run("R-BOUNDARY", RG.boundary, r, only_wider=True, floor=130)
     return chk.finish()
